@@ -1,9 +1,147 @@
+import CoupeModel.Model.Sfc
 import CoupeModel.Driver.Util
 
 namespace Coupe.Driver.C09
-open Coupe.Driver
+open Coupe.Sfc Coupe.Driver
 
-/-- (stub; not built yet) -/
-def handle (_toks : List String) : String := "bad-op"
+def listStr (l : List String) : String :=
+  if l.isEmpty then "-" else " ".intercalate l
+
+def natsStr (l : List Nat) : String := listStr (l.map toString)
+
+/-- Input part of an op line: everything before the `=>` marker, and what follows it. -/
+def splitArrow (toks : List String) : List String × Option (List String) :=
+  let pre := toks.takeWhile (· ≠ "=>")
+  let post := toks.dropWhile (· ≠ "=>")
+  (pre, match post with | _ :: r => some r | [] => none)
+
+def parseFloat? (s : String) : Option Float :=
+  (parseHex? s).map (fun b => Float.ofBits (UInt64.ofNat b))
+
+/-- Same rule as the harness (`exact_weights`): non-negative integer-valued weights whose
+sum stays below 2^53 – every summation order gives the same `f64` sums, so the
+refinement of `weighted_quantiles` is reproducible and the model runs its own. -/
+def exactWeights (bits : List Nat) : Bool :=
+  let ws := bits.map (fun b => Float.ofBits (UInt64.ofNat b))
+  let okEach := (bits.zip ws).all (fun (b, w) =>
+    w.isFinite && w ≥ 0.0 && w == w.floor && w < 9007199254740992.0 && b ≠ 0x8000000000000000)
+  okEach && (ws.map (fun w => w.toUInt64.toNat)).sum < 2 ^ 53
+
+def refineFuel : Nat := 100000
+
+/-- Common tail of `wq` and `hil`: positions (own refinement or hook) and ids. -/
+def hilbertOut (parts : Nat) (idxs : List Nat) (wbits : List Nat) (hookPos : Option (List Nat)) : String :=
+  if parts = 0 then "panic assertion failed: n > 0"
+  else if exactWeights wbits then
+    let ws := wbits.map (fun b => Float.ofBits (UInt64.ofNat b))
+    match Hilbert.quantilesRaw refineFuel idxs ws parts with
+    | none => "hang"
+    | some raw =>
+      "ok m | " ++ natsStr (sortAsc raw) ++ " | " ++ natsStr (Hilbert.partitionIndexed idxs raw)
+  else
+    match hookPos with
+    | none => "bad-op"
+    | some pos => "ok h | " ++ natsStr (sortAsc pos) ++ " | " ++ natsStr (Hilbert.partitionIndexed idxs pos)
+
+/-- `<m> <pos_0> … <pos_{m-1}>` -/
+def parsePositions (toks : List String) : Option (List Nat) :=
+  match toks with
+  | m :: rest => do
+    let m ← parseNat? m
+    let (pos, rest) ← takeParsed parseNat? m rest
+    if rest.isEmpty then some pos else none
+  | [] => none
+
+def digitsOf (s : String) : Option (List Nat) :=
+  if s = "e" then some [] else
+  s.toList.mapM (fun c => if c.isDigit then some (c.toNat - '0'.toNat) else none)
+
+def codeNum (base : Nat) (ds : List Nat) : Nat := ds.foldl (fun acc d => acc * base + d) 0
+
+def handle (toks : List String) : String :=
+  let (pre, post) := splitArrow toks
+  match pre with
+  | "bs" :: key :: m :: rest =>
+    match (do
+      let key ← parseNat? key
+      let m ← parseNat? m
+      let (s, rest) ← takeParsed parseNat? m rest
+      if rest.isEmpty then some (key, s) else none) with
+    | none => "bad-op"
+    | some (key, s) =>
+      match bsearch s key with
+      | .ok i => "ok " ++ toString i
+      | .err i => "err " ++ toString i
+  | "wq" :: pool :: parts :: n :: rest =>
+    match (do
+      let _ ← parseNat? pool
+      let parts ← parseNat? parts
+      let n ← parseNat? n
+      let (idxs, rest) ← takeParsed parseNat? n rest
+      let (wbits, rest) ← takeParsed parseHex? n rest
+      if rest.isEmpty then some (parts, idxs, wbits) else none) with
+    | none => "bad-op"
+    | some (parts, idxs, wbits) =>
+      if idxs.isEmpty then "panic called `Option::unwrap()` on a `None` value"
+      else hilbertOut parts idxs wbits (post.bind parsePositions)
+  | "hil" :: dim :: pool :: order :: parts :: n :: rest =>
+    match (do
+      let dim ← parseNat? dim
+      let _ ← parseNat? pool
+      let order ← parseNat? order
+      let parts ← parseNat? parts
+      let n ← parseNat? n
+      let (_, rest) ← takeParsed parseHex? (n * dim) rest
+      let (wbits, rest) ← takeParsed parseHex? n rest
+      if rest.isEmpty ∧ (dim = 2 ∨ dim = 3) then some (dim, order, parts, n, wbits) else none) with
+    | none => "bad-op"
+    | some (dim, order, parts, n, wbits) =>
+      -- `HilbertCurve::partition`: MAX_ORDER check, empty early return, then `partition_indexed`
+      if order > (if dim = 2 then 32 else 21) then "err invalid-order"
+      else if n = 0 then "ok-empty"
+      else if parts = 0 then "panic assertion failed: n > 0"
+      else
+        match post with
+        | none => "bad-op"
+        | some post =>
+          match takeParsed parseNat? n post with
+          | none => "bad-op"
+          | some (idxs, rest) => hilbertOut parts idxs wbits (parsePositions rest)
+  | "zc" :: dim :: pool :: order :: parts :: n :: rest =>
+    match (do
+      let dim ← parseNat? dim
+      let _ ← parseNat? pool
+      let order ← parseNat? order
+      let parts ← parseNat? parts
+      let n ← parseNat? n
+      let (_, rest) ← takeParsed parseHex? (n * dim) rest
+      if rest.isEmpty ∧ (dim = 2 ∨ dim = 3) then some (dim, order, parts, n) else none) with
+    | none => "bad-op"
+    | some (dim, order, parts, n) =>
+      let p0 := List.replicate n (2 ^ 64 - 1)
+      let codeToks := (post.getD []).toArray
+      match codeToks.toList.mapM digitsOf with
+      | none => "bad-op"
+      | some codes =>
+        let codesA := codes.toArray
+        -- `region path i`: the hook gives each point's regions along its own path, and a
+        -- point is only ever asked about boxes on its own path
+        let region := fun (path : List Nat) (i : Nat) => (codesA.getD i []).getD path.length 0
+        match ZCurve.partition dim order parts ZCurve.sortByKey region n p0 with
+        | .panic cls => "panic " ++ cls
+        | .ok ids =>
+          if codesA.size ≠ n ∨ codes.any (·.length ≠ order) then "bad-op"
+          else
+            match ZCurve.sortRec (2 ^ dim) ZCurve.sortByKey region order [] (List.range n) with
+            | none => "panic z_curve_partition_recurse"
+            | some perm =>
+              let a := perm.map (fun p => codeToks.getD p "?")
+              let base := 2 ^ dim
+              let pairs := (List.range n).map (fun p =>
+                (codeNum base (codesA.getD p []), ids.getD p 0, codeToks.getD p "?"))
+              let sorted := pairs.mergeSort (fun x y => x.1 < y.1 || (x.1 == y.1 && x.2.1 ≤ y.2.1))
+              let b := sorted.map (fun x => x.2.2 ++ ":" ++ toString x.2.1)
+              "ok | " ++ listStr a ++ " | " ++ listStr b
+  | _ => "bad-op"
 
 end Coupe.Driver.C09
